@@ -252,6 +252,30 @@ class Facts:
                 self.fns[f["path"]] = f
             self.impls.extend(j["impls"])
 
+    def desugared(self):
+        """view of the same facts with iterator terminals and Option/bool combinators rewritten into
+        explicit loops and matches (cva/desugar.py); bodies without such calls are shared"""
+        if getattr(self, "_desugared", None) is None:
+            import copy
+            from . import desugar
+            v = copy.copy(self)
+            raw = {k: b.j for k, b in self.bodies.items()}
+            v.bodies = {}
+            v.rewrites = {}
+            for k, b in self.bodies.items():
+                if not b.crate.startswith("cozy_chess"):
+                    v.bodies[k] = b
+                    continue
+                j2, n = desugar.desugar(b.j, raw)
+                if n:
+                    v.bodies[k] = Body(j2, b.crate, v)
+                    v.rewrites[k] = n
+                else:
+                    v.bodies[k] = b
+            v._desugared = v
+            self._desugared = v
+        return self._desugared
+
     def body(self, path):
         return self.bodies.get(path)
 
